@@ -1,7 +1,7 @@
 (* C03 — proofs about networks (encoder + head + latent width) and the completion of partial configurations. *)
 From Coq Require Import List ZArith Bool String Lia.
 Import ListNotations.
-From AgileV Require Import C03.Model C03.ModelCnn C03.ModelNet C03.Proofs C03.ProofsS C03.ProofsCnn.
+From AgileV Require Import C03.Model C03.ModelCnn C03.ModelNet C03.Proofs C03.ProofsS C03.ProofsCnn C03.ProofsCnn2 C03.ProofsCnnFix.
 Local Open Scope Z_scope.
 Notation length := List.length.
 
@@ -50,12 +50,15 @@ Proof.
 Qed.
 
 (* ---- the head (when the call reaches it) and the encoder follow the theorems of their blocks *)
+Lemma wrapped_reaches s : ns_wrapped_head s && negb wrapper_forwards = false.
+Proof. unfold wrapper_forwards. cbn. apply andb_false_r. Qed.
+
 Theorem net_head_step s c a hm r1 r2 :
-  ns_wrapped_head s && negb wrapper_forwards = false ->
   let a' := arch_of (net_step s c a (NHead hm) r1 r2) in
-  n_head a' = arch_of (mlp_step (n_head_cfg c) (n_head a) hm r1 r2) /\ n_enc a' = n_enc a /\ n_latent a' = n_latent a.
+  n_head a' = arch_of (mlp_step (n_head_cfg c) (n_head a) hm r1 r2) /\ n_enc a' = n_enc a /\ n_latent a' = n_latent a /\
+  name_of (net_step s c a (NHead hm) r1 r2) = String.append "head_net." (name_of (mlp_step (n_head_cfg c) (n_head a) hm r1 r2)).
 Proof.
-  intros H. cbn [net_step]. rewrite H. unfold arch_of.
+  cbn [net_step]. rewrite wrapped_reaches. unfold arch_of, name_of.
   destruct (mlp_step (n_head_cfg c) (n_head a) hm r1 r2) as [[h' nm] rt]. cbn. auto.
 Qed.
 
@@ -91,8 +94,10 @@ Proof.
     destruct (mlp_remove_node c h hl nn r1 r2) as [[h' nm] rt]. cbn [fst enc_in_bounds] in *. split; [rewrite E|]; auto.
   - (* CNN change_kernel: channels untouched *)
     destruct st; try exact HB. destruct (Z.ltb_spec 1 (zlen (channels a))); [|exact HB].
-    unfold cnn_change_kernel. destruct (Z.ltb_spec 1 (zlen (channels a))); [|lia].
-    destruct hl; unfold arch_of; cbn [fst enc_in_bounds channels]; exact HB.
+    match goal with |- context[cnn_change_kernel ?st0 c a ks hl r1 r2] =>
+      pose proof (cnn_change_kernel_channels_same st0 c a ks hl r1 r2 H) as E;
+      unfold arch_of in *; destruct (cnn_change_kernel st0 c a ks hl r1 r2) as [[a' nm] rt] end.
+    cbn [fst enc_in_bounds] in *. rewrite E. exact HB.
   - destruct HB as [HL HF]. destruct (cnn_add_channel_spec c a hl nn r1 r2) as (_ & _ & E & H). unfold arch_of in *.
     specialize (H _ _ (Z.le_refl _) (Z.le_refl _) Hm HF).
     destruct (cnn_add_channel c a hl nn r1 r2) as [[a' nm] rt]. cbn [fst enc_in_bounds] in *. split; [rewrite E|]; auto.
@@ -144,18 +149,16 @@ Proof. unfold net_mutate. destruct (net_step _ _ _ _ _ _) as [[a' nm] rt]. refle
 
 (* ---- finding: on the current tree a head mutation advertised by a StochasticActor does nothing *)
 Theorem wrapped_head_mutation_ineffective_refuted :
-  wrapper_forwards = false ->
   exists s c a r1 r2,
     ns_wrapped_head s = true /\ zlen (n_head a) < m_max_layers (n_head_cfg c) /\
-    net_step s c a (NHead MAddLayer) r1 r2 = (a, ""%string, []).
+    net_step_prefix s c a (NHead MAddLayer) r1 r2 = (a, ""%string, []).
 Proof.
-  intros Hw.
   exists {| ns_enc := SMlp 4 true; ns_head_in_extra := 0; ns_head_out := 2; ns_head_layer_norm := true; ns_head_noisy := false;
             ns_wrapped_head := true; ns_log_std := Some 2; ns_dueling := None |},
          {| n_min_latent := 8; n_max_latent := 128; n_enc_cfg := KMlp {| m_min_layers := 1; m_max_layers := 3; m_min_nodes := 64; m_max_nodes := 500 |};
             n_head_cfg := {| m_min_layers := 1; m_max_layers := 3; m_min_nodes := 64; m_max_nodes := 500 |} |},
          {| n_latent := 16; n_enc := EMlp [64]; n_head := [64] |}, 0, 0.
-  split; [reflexivity|]. split; [cbn; lia|]. cbn [net_step ns_wrapped_head]. rewrite Hw. reflexivity.
+  split; [reflexivity|]. split; [cbn; lia|reflexivity].
 Qed.
 
 (* ---- completion of a partial configuration is a fixed point of (build ; init_dict) ... *)
